@@ -88,6 +88,12 @@ func c14Versions(kind string, now time.Time) []*alert.Alert {
 			vAlert("A", "1", "1", start, now.Add(5*time.Minute), now.Add(-1*ms), true),
 			vAlert("A", "1", "2", start, end, now.Add(-1*ms), firing),
 		}
+	case "writers2": // a stored firing alert; then TWO API requests overlap: one resolves it, the other (newer) fires it again
+		return []*alert.Alert{
+			vAlert("A", "1", "0", start, now.Add(5*time.Minute), now.Add(-3*ms), true),
+			vAlert("A", "1", "1", start, now.Add(-2*ms), now.Add(-2*ms), false),
+			vAlert("A", "1", "2", now.Add(-1*ms), now.Add(5*time.Minute), now.Add(-1*ms), true),
+		}
 	case "refire": // resolved alert fires again
 		return []*alert.Alert{
 			vAlert("A", "1", "1", start, now.Add(-2*ms), now.Add(-2*ms), false),
@@ -130,17 +136,32 @@ func c14Exec(t *testing.T, p c14Part, prefix []int, expect []string, trace bool)
 			vs = c14Versions(p.kind, time.Now())
 
 			s.SetBranching(true)
-			done = s.Go(func() {
-				if strings.HasPrefix(p.kind, "batch-") {
-					f.alerts.Put(context.Background(), vs...)
-					return
+			if p.kind == "writers2" {
+				s.Do(func() { f.alerts.Put(context.Background(), vs[0]) })
+				s.Drive()
+				s.SetBranching(true)
+				done = s.Go(func() { f.alerts.Put(context.Background(), vs[1]) })
+				done2 := s.Go(func() { f.alerts.Put(context.Background(), vs[2]) })
+				left = s.Drive()
+				s.SetBranching(false)
+				select {
+				case <-done2:
+				default:
+					x.Violation = "harness-stuck"
 				}
-				for _, v := range vs {
-					f.alerts.Put(context.Background(), v)
-				}
-			})
-			left = s.Drive()
-			s.SetBranching(false)
+			} else {
+				done = s.Go(func() {
+					if strings.HasPrefix(p.kind, "batch-") {
+						f.alerts.Put(context.Background(), vs...)
+						return
+					}
+					for _, v := range vs {
+						f.alerts.Put(context.Background(), v)
+					}
+				})
+				left = s.Drive()
+				s.SetBranching(false)
+			}
 		}
 		select {
 		case <-done:
@@ -241,14 +262,14 @@ func TestVerifC14(t *testing.T) {
 		}
 		jobs = append(jobs, job{c14Part{"refresh3", 0}, 3, 0}, job{c14Part{"refresh", 4}, 3, 0}, job{c14Part{"resolve", 4}, 3, 0}, job{c14Part{"two", 0}, 3, 0}, job{c14Part{"two", 4}, 2, 0}, job{c14Part{"backlog", 0}, 2, 0},
 			job{c14Part{"pre-resolve", 0}, -1, 3}, job{c14Part{"pre-refresh3", 0}, -1, 3}, job{c14Part{"pre-refire", 1}, -1, 3},
-			job{c14Part{"batch-resolve", 0}, -1, 0}, job{c14Part{"batch-refresh", 1}, -1, 0}, job{c14Part{"batch-resolve", 4}, 3, 0})
+			job{c14Part{"batch-resolve", 0}, -1, 0}, job{c14Part{"batch-refresh", 1}, -1, 0}, job{c14Part{"batch-resolve", 4}, 3, 0}, job{c14Part{"writers2", 0}, -1, 0}, job{c14Part{"writers2", 1}, 3, 0})
 	} else {
 		for _, k := range []string{"refresh", "resolve", "refire"} {
 			jobs = append(jobs, job{c14Part{k, 0}, 2, 0}, job{c14Part{k, 1}, 2, 0})
 		}
 		jobs = append(jobs, job{c14Part{"refresh3", 0}, 1, 0}, job{c14Part{"refresh", 4}, 2, 0}, job{c14Part{"two", 0}, 2, 0}, job{c14Part{"backlog", 0}, 1, 0},
 			job{c14Part{"pre-resolve", 0}, -1, 2}, job{c14Part{"pre-refresh3", 1}, -1, 2},
-			job{c14Part{"batch-resolve", 0}, 2, 0}, job{c14Part{"batch-refresh", 1}, 2, 0})
+			job{c14Part{"batch-resolve", 0}, 2, 0}, job{c14Part{"batch-refresh", 1}, 2, 0}, job{c14Part{"writers2", 0}, 2, 0})
 	}
 	if rp := rep.ReplaySpec(); rp != nil {
 		part, _ := rp["part"].(string)
